@@ -345,14 +345,16 @@ func c16CollectMaps(a jlib.ASTNode, out *[]*jlib.RuleASTNodes) {
 // was written (@name without quotes), not what its text looks like: quoted keys that spell a type
 // name are ordinary keys.
 func ZZC16Keys() {
-	keys := []string{"@id", "@type", "@a-b_1", "@", "mail@host", "name", "@k"}
-	k := keys[v.Choose(0, len(keys)-1)]
+	keys := []string{"@id", "@type", "@a-b_1", "@", "mail@host", "name", "@k", `caf\u00e9`, `\u004B\u006a`, `\u20ac`}
+	decoded := []string{"@id", "@type", "@a-b_1", "@", "mail@host", "name", "@k", "caf\u00e9", "Kj", "\u20ac"}
+	ki := v.Choose(0, len(keys)-1)
+	k := keys[ki]
 	pos := v.Choose(0, 2) // the only key, before a shortcut key, after one
 	text := "{\n"
 	if pos == 2 {
 		text += "  @k: 2,\n"
 	}
-	text += "  \"" + k + "\": 1"
+	text += "  \"" + k + "\": \"" + k + "\""
 	if pos == 1 {
 		text += ",\n  @k: 2"
 	}
@@ -379,7 +381,9 @@ func ZZC16Keys() {
 		if shortcut {
 			v.Assert(c.Key == "@k", "C16/key-text")
 		} else {
-			v.Assert(c.Key == k, "C16/key-text")
+			// keys and string values are given decoded
+			v.Assert(c.Key == decoded[ki], "C16/key-text")
+			v.Assert(c.Value == decoded[ki], "C16/value-text")
 		}
 	}
 	v.Reach("C16/keys")
